@@ -237,6 +237,9 @@ class Value(ABC):
             except ValueTypeError:
                 pass
 
+        if not value:
+            raise ValueTypeError("no value specified")
+
         mode = ExplicitAddressingMode.EXTENDED if default_mode_extended else ExplicitAddressingMode.NONE
         if value[0] in [">", "<", "#"]:
             if value.startswith("<"):
@@ -370,7 +373,7 @@ class StringValue(Value):
         super().__init__(value)
         self.hex_array = []
         self.type = ValueType.STRING
-        if value[-1] != value[0]:
+        if len(value) < 2 or value[-1] != value[0]:
             raise ValueTypeError("string must begin and end with same delimiter")
         self.original_string = value[1:-1]
         self.hex_array = ["{:X}".format(ord(x)) for x in value[1:-1]]
